@@ -371,7 +371,7 @@ type pqOut struct {
 }
 
 type c16PQ struct {
-	Mag    bool       `json:"mag"` // comparator returning magnitudes instead of -1/0/1
+	Mag    bool       `json:"mag"`           // comparator returning magnitudes instead of -1/0/1
 	Int    bool       `json:"int,omitempty"` // the keys are 8-byte encodings of int64 (negative ones included) and the queue is keyed by int64
 	Inputs [][]pqItem `json:"inputs"`
 	// observation
